@@ -284,7 +284,12 @@ pub fn families() -> Vec<Box<dyn Family>> {
                     let ta = sa.concat();
                     let tb = sb.concat();
                     out.eval();
-                    match guard(|| TextDiff::configure().algorithm(Algorithm::Patience).diff_lines(&ta, &tb).ops().to_vec()) {
+                    match guard(|| {
+                        let mut c = TextDiff::configure();
+                        c.algorithm(Algorithm::Patience);
+                        // half of the diffs go through a CLONE of the configured builder
+                        if ta.len() % 2 == 0 { c.clone().diff_lines(&ta, &tb).ops().to_vec() } else { c.diff_lines(&ta, &tb).ops().to_vec() }
+                    }) {
                         Err(p) => out.violation("panic", format!("TextDiff(Patience) panicked: {}", p)),
                         Ok(ops) => {
                             let mut pairs = Vec::new();
